@@ -243,39 +243,31 @@ def coherence(ctx, op, prog, vals, tr, d, assess_fn=None, args=None, allow_outsi
     return "ok", ref
 
 
-def args_recorded(tr, args):
+def args_problem(tr, args):
+    """None when the trace records the arguments it was produced with, in the (args, kwargs) convention of traces;
+    otherwise a key suffix naming what is wrong ("" = the trace of the program under test itself)."""
     ra = tr.get_args()
-    ok = isinstance(ra, tuple) and len(ra) == 2 and len(ra[0]) == len(args) and ra[1] == {}
-    return ok and all(bit_equal(a, b) for a, b in zip(ra[0], args))
+    ok = isinstance(ra, tuple) and len(ra) == 2 and isinstance(ra[0], tuple) and len(ra[0]) == len(args) and ra[1] == {}
+    ok = ok and all(bit_equal(a, b) for a, b in zip(ra[0], args))
+    if not ok:
+        return ""
+    if hasattr(tr, "inner_args"):
+        # bare generative function: the arguments recorded by ITS trace are the ones it was called with
+        ia = tr.inner.get_args()
+        want = tr.inner_args
+        same = lambda a, b: np.shape(a) == np.shape(b) and np.array_equal(np.asarray(a, dtype=np.float64), np.asarray(b, dtype=np.float64))  # noqa: E731
+        if not (isinstance(ia, tuple) and len(ia) == 2 and isinstance(ia[0], tuple) and len(ia[0]) == len(want) and ia[1] == {}):
+            return f"|bare-{tr.kind}|not-in-(args,kwargs)-convention"
+        bad = [(a, b) for a, b in zip(ia[0], want) if not same(a, b)]
+        if bad:
+            if tr.kind == "vmap" and all(
+                np.ndim(a) == np.ndim(b) + 1 and np.array_equal(np.asarray(a, np.float64), np.broadcast_to(np.asarray(b, np.float64), np.shape(a)))
+                for a, b in bad
+            ):
+                return "|bare-vmap|unmapped-argument-recorded-per-lane"
+            return f"|bare-{tr.kind}"
+    return None
 
 
-# ---------------------------------------------------------------------------
-# reference-side enumeration of all completions of the missing discrete addresses
-# ---------------------------------------------------------------------------
-def enumerate_ref(prog, vals, choices=None, max_leaves=20000):
-    """Yields reference Results over all completions (discrete programs only)."""
-    stack = [[]]
-    leaves = 0
-    while stack:
-        prefix = stack.pop()
-        pos = [0]
-        log = []
-
-        def chooser(path, idx, dist, params):
-            sup = R.support(dist, params)
-            if sup is None:
-                raise ValueError("enumerate_ref: continuous site " + pstr(path))
-            i = pos[0]
-            k = prefix[i] if i < len(prefix) else 0
-            pos[0] += 1
-            log.append(len(sup))
-            return sup[k]
-
-        res = R.run(prog, vals, choices=choices, chooser=chooser)
-        leaves += 1
-        if leaves > max_leaves:
-            raise OverflowError("too many completions")
-        for i in range(len(prefix), len(log)):
-            for alt in range(1, log[i]):
-                stack.append(prefix + [0] * (i - len(prefix)) + [alt])
-        yield res
+def args_recorded(tr, args):
+    return args_problem(tr, args) is None
